@@ -14,6 +14,7 @@ EXPLANATION = (
     "the float-width ladder, and every cursor-based reader calls finish() and propagates it before returning Ok; (R5) no "
     "unordered iteration reaches an encoder and map keys are sorted before emission. decode(encode(v)) == v and "
     "'accepted ⇒ canonical' as equalities over all byte strings are NOT decided."
+    " Round 2: (R6) every byte-tag dispatch of the decoders is closed — unlisted tag values reach only errors (frozen list of 55 dispatchers); (R7) a decoder that sorts/deduplicates what it decoded also rejects non-canonical input; (R3) the reader's float-fit predicates say 'does not fit' only through the writer's round-trip equality, NaN has one spelling on the read side too, and every narrowing cast in the integer width ladder is range-bounded."
 )
 ASSUMPTIONS = ["third-party codecs (ciborium, minicbor, serde) are deterministic", "round-trip equality is value-level"]
 FLOOR = 150
